@@ -2,6 +2,7 @@ from __future__ import annotations
 
 from typing import TYPE_CHECKING
 
+import numpy as np
 from pydantic import BaseModel
 
 from geff.validate.graph import (
@@ -54,6 +55,9 @@ def validate_data(memory_geff: InMemoryGeff, config: ValidationConfig) -> None:
         if not valid:
             raise ValueError(f"Self edges found in data:\n{invalid_edges}")
 
+        # In an undirected graph (a, b) and (b, a) are the same edge
+        if not meta.directed:
+            edge_ids = np.sort(edge_ids, axis=1)
         valid, invalid_edges = validate_no_repeated_edges(edge_ids)
         if not valid:
             raise ValueError(f"Repeated edges found in data:\n{invalid_edges}")
